@@ -2,6 +2,11 @@
 pub mod common;
 pub mod selfcheck;
 pub mod c01;
+pub mod c02;
+pub mod bcprops;
+pub mod c03;
+pub mod c04;
+pub mod c17;
 pub mod c12;
 pub mod c13;
 pub mod c14;
@@ -12,6 +17,10 @@ use super::explore::Ctx;
 pub fn run(prop: &str, ctx: &mut Ctx) -> bool {
     match prop {
         "C01" => c01::run(ctx),
+        "C02" => c02::run(ctx),
+        "C03" => c03::run(ctx),
+        "C04" => c04::run(ctx),
+        "C17" => c17::run(ctx),
         "C12" => c12::run(ctx),
         "C13" => c13::run(ctx),
         "C14" => c14::run(ctx),
